@@ -674,6 +674,41 @@ theorem multiply_eq (l r : BitVec 64) : CPyTagged_Multiply l r =
   · have : ¬ (isShort l ∧ isShort r ∧ l.toNat < 2147483648 ∧ r.toNat < 2147483648) := fun h => hc ⟨h.1, h.2.1⟩
     simp only [hc, this, if_false]
 
+/-! ## the exact result fits whenever the fast path is taken -/
+
+theorem multiply_fits (l r : BitVec 64)
+    (hc : isShort l ∧ isShort r ∧ l.toNat < 2147483648 ∧ r.toNat < 2147483648) : Fits (sval l * sval r) := by
+  obtain ⟨hl, hr, hs1, hs2⟩ := hc
+  have h1 := short_toInt l hl
+  have h2 := short_toInt r hr
+  have t1 := toInt_toNat l
+  have t2 := toInt_toNat r
+  generalize sval l = a at *
+  generalize sval r = b at *
+  have hab0 : 0 ≤ a * b := Int.mul_nonneg (by omega) (by omega)
+  have hab1 : a * b ≤ 1073741823 * 1073741823 :=
+    Int.mul_le_mul (by omega) (by omega) (by omega) (by omega)
+  unfold Fits; omega
+
+theorem floorDivide_fits (l r : BitVec 64)
+    (hc : isShort l ∧ isShort r ∧ sval r ≠ 0 ∧ sval l ≠ -4611686018427387904) :
+    Fits ((sval l).fdiv (sval r)) := by
+  obtain ⟨hl, hr, hz, hm⟩ := hc
+  have f1 := short_fits l hl
+  have hfd := fdiv_of_tdiv (sval l) (sval r) hz
+  have htb := tdiv_abs_le (sval l) (sval r)
+  unfold Fits at *
+  split at hfd <;> omega
+
+theorem remainder_fits (l r : BitVec 64) (hc : isShort l ∧ isShort r ∧ sval r ≠ 0) :
+    Fits ((sval l).fmod (sval r)) := by
+  obtain ⟨hl, hr, hz⟩ := hc
+  have f2 := short_fits r hr
+  obtain ⟨_, hm0, hm1, hm2, hm3⟩ := tmod_facts (sval l) (sval r) hz
+  have hfm := fmod_of_tmod (sval l) (sval r) hz
+  unfold Fits at *
+  split at hfm <;> omega
+
 /-! ## shapes shared by the property theorems -/
 
 theorem fast_of_ite {α : Type} {C : Prop} [Decidable C] {e v : α} {c : SlowCall}
